@@ -254,6 +254,10 @@ func registerTimeIntrinsics(reg func(string, intrinsicFn)) {
 		was := !t.fired && !t.stopped
 		t.fired = false
 		t.stopped = false
+		t.armed = w.vtime
+		if d, ok := args[1].(int64); ok {
+			t.dur = d
+		}
 		return was
 	})
 }
@@ -352,6 +356,9 @@ func registerContextIntrinsics(reg func(string, intrinsicFn)) {
 	withTimer := func(w *World, th *Thread, fn *ssa.Function, args []Value) Value {
 		c := newChild(w, args[0])
 		t := w.newTimer("ctx.timeout")
+		if d, ok := args[1].(int64); ok { // WithTimeout(parent, d); WithDeadline has an instant: due next
+			t.dur = d
+		}
 		t.onFire = func() {
 			w.ctxCancel(nil, c, w.ctxGlobalErr("DeadlineExceeded"))
 		}
